@@ -464,12 +464,14 @@ Theorem gw_replay sc1 sc2 tA hash txs j tg tA' tB' :
   gw_connected sc2 (restart tA dB) hash txs = Ok tt tB' ->
   db_of tB' = db_of tA'.
 Proof.
-  intros HI [_ Hm] HG HW dB Hok. unfold gw_connected.
+  intros HI [_ Hm] HG HW dB.
+  assert (HdB : dB = execs (db_of tg) (firstn j (w_inserts sc1 tg txs))) by reflexivity. clearbody dB.
+  intros Hok. unfold gw_connected.
   change (gk_height (restart tA dB)) with (gk_height tA).
   pose proof (ins_only_w sc1 tg txs) as Hio.
   assert (HP : ins_only (firstn j (w_inserts sc1 tg txs))).
   { apply Forall_forall. intros s Hs. unfold ins_only in Hio. rewrite Forall_forall in Hio. apply Hio. eapply in_firstn. exact Hs. }
-  destruct (execs_ins_keeps _ HP (db_of tg)) as [Ku _]. fold dB in Ku.
+  destruct (execs_ins_keeps _ HP (db_of tg)) as [Ku _]. rewrite <- HdB in Ku.
   assert (Hgu : gk_users (restart tA dB) = db_users tg).
   { change (gk_users (restart tA dB)) with (d_users dB). rewrite Ku. reflexivity. }
   rewrite (gatekeeper_replay_done tA (gk_height tA + 1) tg (restart tA dB) HI HG eq_refl Hgu). cbn [bind].
@@ -480,7 +482,7 @@ Proof.
   - apply memo_nil_coherent. reflexivity.
   - rewrite F1. reflexivity.
   - rewrite F2. reflexivity.
-  - change (db_of (set_gk_height (restart tA dB) (gk_height tA + 1))) with (db_of (restart tA dB)). rewrite db_of_restart. reflexivity.
+  - change (db_of (set_gk_height (restart tA dB) (gk_height tA + 1))) with (db_of (restart tA dB)). rewrite db_of_restart. exact HdB.
   - change (db_of (set_gk_height (restart tA dB) (gk_height tA + 1))) with (db_of (restart tA dB)). rewrite db_of_restart. exact Hok.
   - exact HW.
   - exact HB.
